@@ -10,6 +10,46 @@ Import ListNotations.
 Lemma wf_style_of_g : forall r, blank1 (g_hsep r) = true -> wf_style (style_of_g r) = true.
 Proof. intros r H. unfold wf_style, style_of_g. cbn [y_hsep y_lead y_sep y_sym y_tail y_post]. rewrite H. reflexivity. Qed.
 
+(* the header line: with a description it is IoPrint's; without, any trailing blanks are trimmed away *)
+Lemma header_print_g : forall r X, wf_hsep_g r = true -> wf_id (g_id r) = true -> wf_desc (g_desc r) = true ->
+  exists n, p_header (print_header_g r ++ X) = POk X n (g_id r, g_desc r).
+Proof.
+  intros r X Hh Hid Hd. unfold wf_hsep_g in Hh. destruct (g_desc r) as [d|] eqn:Ed.
+  - pose proof (header_print (style_of_g r) (src_of_g r) X (wf_style_of_g r Hh) Hid) as P.
+    unfold print_header, src_of_g in P. cbn [sid sdesc] in P. rewrite Ed in P. cbn [y_hsep style_of_g] in P.
+    unfold print_header_g. rewrite Ed. exact (P Hd).
+  - set (cr := if g_crlf r then [13%N] else []).
+    assert (Heol : eol (style_of_g r) = cr ++ [10%N]) by (unfold eol, cr, style_of_g; cbn [y_crlf]; destruct (g_crlf r); reflexivity).
+    assert (Hcr_ws : forallb is_white_space cr = true) by (unfold cr; destruct (g_crlf r); reflexivity).
+    assert (Hcr_nl : forallb (fun c => negb (N.eqb c 10)) cr = true) by (unfold cr; destruct (g_crlf r); reflexivity).
+    assert (Hidn : forallb (fun c => negb (is_ascii_ws c)) (g_id r) = true).
+    { revert Hid. unfold wf_id. apply forallb_imp. intros c H. split_andb. assumption. }
+    unfold all_blank in Hh.
+    destruct (header_core (g_id r) (g_hsep r ++ cr) X) as [n Hn]; auto.
+    + rewrite forallb_app, Hcr_nl, andb_true_r. revert Hh. apply forallb_imp. apply blank_not_nl.
+    + destruct (g_hsep r) as [|b hs].
+      * cbn [app]. unfold cr. destruct (g_crlf r); eexists; eexists; (split; [reflexivity|]); reflexivity.
+      * cbn [forallb] in Hh. apply andb_true_iff in Hh. destruct Hh as [Hb _].
+        eexists. eexists. split; [reflexivity|]. apply blank_is_ascii_ws. exact Hb.
+    + exists n.
+      assert (trim (g_hsep r ++ cr) = []) as Ht.
+      { apply trim_all_ws. rewrite forallb_app, Hcr_ws, andb_true_r. revert Hh. apply forallb_imp. apply blank_is_ws. }
+      rewrite Ht in Hn. cbn [is_nil] in Hn. rewrite <- Hn. f_equal.
+      unfold print_header_g. rewrite Ed, Heol. repeat rewrite <- app_assoc. reflexivity.
+Qed.
+
+Lemma okc_header_g : forall r, wf_hsep_g r = true -> wf_id (g_id r) = true -> wf_desc (g_desc r) = true ->
+  forallb okc (g_id r ++ match g_desc r with Some d => g_hsep r ++ d | None => g_hsep r end ++ eol (style_of_g r)) = true.
+Proof.
+  intros r Hh Hid Hd. unfold wf_hsep_g in Hh. destruct (g_desc r) as [d|] eqn:Ed.
+  - pose proof (okc_header (style_of_g r) (src_of_g r) (wf_style_of_g r Hh) Hid) as P.
+    unfold src_of_g in P. cbn [sid sdesc] in P. rewrite Ed in P. exact (P Hd).
+  - assert (H1 : forallb okc (g_id r) = true).
+    { revert Hid. unfold wf_id. apply forallb_imp. intros c H. split_andb.
+      unfold okc. apply andb_true_iff. split; assumption. }
+    rewrite !forallb_app, H1, okc_eol, (okc_all_blank _ Hh). reflexivity.
+Qed.
+
 Lemma scols_of_g : forall r, scols (src_of_g r) = map (fun l => (g_sym l, map snd (g_toks l))) (g_lines r).
 Proof. reflexivity. Qed.
 
@@ -34,11 +74,10 @@ Proof.
   assert (length t = length a) as Lt by (apply (W (84%N, t)); cbn; auto).
   match goal with Hf : forallb _ _ = true |- _ => cbn [forallb] in Hf; rename Hf into Hcnt end.
   split_andb.
-  match goal with Hb : blank1 hsep = true |- _ => pose proof (wf_style_of_g r Hb) as Hs end.
   unfold print_jaspar_g. change (g_lines r) with [la; lc; lg; lt]. cbn [map concat]. rewrite app_nil_r.
   repeat rewrite <- app_assoc.
-  match goal with Hi : wf_id _ = true, Hd : wf_desc _ = true |- _ =>
-    destruct (header_print (style_of_g r) (src_of_g r)
+  match goal with Hs : wf_hsep_g _ = true, Hi : wf_id _ = true, Hd : wf_desc _ = true |- _ =>
+    destruct (header_print_g r
                 (jaspar_line_g r la ++ jaspar_line_g r lc ++ jaspar_line_g r lg ++ jaspar_line_g r lt ++ tail)
                 Hs Hi Hd) as [n0 E0]
   end.
@@ -49,9 +88,7 @@ Proof.
   destruct (j_matrix_column_print_g r lt tail ltac:(assumption)) as [n4 E4].
   fold a in E1. fold c in E2. fold g in E3. fold t in E4.
   repeat rewrite <- app_assoc in E1, E2, E3.
-  unfold j_record. unfold print_header in *.
-  repeat rewrite <- app_assoc in E0. repeat rewrite <- app_assoc.
-  cbn [app] in *. rewrite E0. cbn [pbind].
+  unfold j_record. rewrite E0. cbn [pbind].
   unfold p_map_res, j_matrix. rewrite E1. cbn [pbind]. rewrite E2. cbn [pbind]. rewrite E3. cbn [pbind].
   rewrite E4. cbn [pbind]. rewrite (j_build_matrix_spec dec_value a c g t Lc Lg Lt).
   cbn [pbind]. eexists. unfold record_of. rewrite Esc. reflexivity.
@@ -123,9 +160,8 @@ Section J16G.
         rewrite Esc. apply in_map. exact Hl.
       - rewrite forallb_forall in Hl16. exact (Hl16 l Hl). }
     unfold print_jaspar16_g. rewrite El. rewrite <- app_assoc.
-    match goal with Hb : blank1 (g_hsep r) = true, Hi : wf_id _ = true, Hd : wf_desc _ = true |- _ =>
-      destruct (header_print (style_of_g r) (src_of_g r)
-                  (concat (map (jaspar16_line_g r) (l0 :: lines)) ++ tail) (wf_style_of_g r Hb) Hi Hd) as [n0 E0]
+    match goal with Hb : wf_hsep_g r = true, Hi : wf_id _ = true, Hd : wf_desc _ = true |- _ =>
+      destruct (header_print_g r (concat (map (jaspar16_line_g r) (l0 :: lines)) ++ tail) Hb Hi Hd) as [n0 E0]
     end.
     destruct (many1_lines_g r l0 lines tail G Hst) as [n1 E1].
     unfold j16_record. rewrite E0. cbn [pbind].
@@ -179,26 +215,24 @@ Lemma print_jaspar_g_shape : forall r, wf_jaspar_g r = true ->
   exists body, print_jaspar_g r = 62%N :: body /\ ~ In 62%N body /\ forallb is_scalar (print_jaspar_g r) = true.
 Proof.
   intros r H. unfold wf_jaspar_g in H. split_andb.
-  exists ((sid (src_of_g r) ++ match sdesc (src_of_g r) with Some d => y_hsep (style_of_g r) ++ d | None => [] end
+  exists ((g_id r ++ match g_desc r with Some d => g_hsep r ++ d | None => g_hsep r end
            ++ eol (style_of_g r)) ++ concat (map (jaspar_line_g r) (g_lines r))).
   split; [reflexivity|].
-  apply shape_from_okc. rewrite forallb_app, okc_header, okc_jaspar_lines_g; auto.
-  apply wf_style_of_g. assumption.
+  apply shape_from_okc. rewrite forallb_app, okc_header_g, okc_jaspar_lines_g; auto.
 Qed.
 
 Lemma print_jaspar16_g_shape : forall A r, wf_alphabet A -> wf_jaspar16_g A r = true ->
   exists body, print_jaspar16_g r = 62%N :: body /\ ~ In 62%N body /\ forallb is_scalar (print_jaspar16_g r) = true.
 Proof.
   intros A r HA H. unfold wf_jaspar16_g in H. split_andb.
-  exists ((sid (src_of_g r) ++ match sdesc (src_of_g r) with Some d => y_hsep (style_of_g r) ++ d | None => [] end
+  exists ((g_id r ++ match g_desc r with Some d => g_hsep r ++ d | None => g_hsep r end
            ++ eol (style_of_g r)) ++ concat (map (jaspar16_line_g r) (g_lines r))).
   split; [reflexivity|].
-  apply shape_from_okc. rewrite forallb_app, okc_header, (okc_jaspar16_lines_g A); auto.
-  - intros l Hl.
-    match goal with Hd : distinct_cols A [] _ = true |- _ =>
-      apply (distinct_cols_index A (scols (src_of_g r)) [] Hd (g_sym l, map snd (g_toks l))) end.
-    rewrite scols_of_g. apply (in_map (fun l => (g_sym l, map snd (g_toks l)))). exact Hl.
-  - apply wf_style_of_g. assumption.
+  apply shape_from_okc. rewrite forallb_app, okc_header_g, (okc_jaspar16_lines_g A); auto.
+  intros l Hl.
+  match goal with Hd : distinct_cols A [] _ = true |- _ =>
+    apply (distinct_cols_index A (scols (src_of_g r)) [] Hd (g_sym l, map snd (g_toks l))) end.
+  rewrite scols_of_g. apply (in_map (fun l => (g_sym l, map snd (g_toks l)))). exact Hl.
 Qed.
 
 (* ---------- reader round trip ---------- *)
@@ -256,6 +290,17 @@ Proof.
   unfold src_of_g in *. cbn [sid sdesc scols g_of_style g_id g_desc] in *. rewrite E. reflexivity.
 Qed.
 
+Lemma print_header_of_style : forall y r, print_header y r = print_header_g (g_of_style (y, r)).
+Proof.
+  intros y r. unfold print_header, print_header_g, g_of_style, eol, style_of_g. cbn [g_id g_desc g_hsep g_crlf y_crlf].
+  destruct (sdesc r); reflexivity.
+Qed.
+
+Lemma wf_hsep_of_style : forall y r, blank1 (y_hsep y) = true -> wf_hsep_g (g_of_style (y, r)) = true.
+Proof.
+  intros y r H. unfold wf_hsep_g, g_of_style. cbn [g_desc g_hsep]. destruct (sdesc r); [exact H|reflexivity].
+Qed.
+
 Lemma gseps_of_style : forall y toks, toks <> [] ->
   gseps (gtoks_of_style y toks) = y_lead y ++ join (y_sep y) toks.
 Proof.
@@ -266,7 +311,7 @@ Qed.
 Lemma print_jaspar16_of_style : forall y r, (forall c, In c (scols r) -> snd c <> []) ->
   print_jaspar16 (y, r) = print_jaspar16_g (g_of_style (y, r)).
 Proof.
-  intros y r H. unfold print_jaspar16, print_jaspar16_g. rewrite src_of_g_of_style. f_equal.
+  intros y r H. unfold print_jaspar16, print_jaspar16_g. rewrite print_header_of_style. f_equal.
   unfold g_of_style. cbn [g_lines]. rewrite map_map. f_equal. apply map_ext_in. intros c Hc.
   unfold jaspar16_line, jaspar16_line_g. cbn [g_sym g_gap g_toks g_tail g_post].
   rewrite (gseps_of_style y (snd c) (H c Hc)). rewrite <- !app_assoc. reflexivity.
@@ -275,7 +320,7 @@ Qed.
 Lemma print_jaspar_of_style : forall y r, (forall c, In c (scols r) -> snd c <> []) ->
   print_jaspar (y, r) = print_jaspar_g (g_of_style (y, r)).
 Proof.
-  intros y r H. unfold print_jaspar, print_jaspar_g. rewrite src_of_g_of_style. f_equal.
+  intros y r H. unfold print_jaspar, print_jaspar_g. rewrite print_header_of_style. f_equal.
   unfold g_of_style. cbn [g_lines]. rewrite map_map. f_equal. apply map_ext_in. intros c Hc.
   unfold jaspar_line, jaspar_line_g. cbn [g_toks].
   rewrite (gseps_of_style y (snd c) (H c Hc)). rewrite <- !app_assoc. reflexivity.
@@ -324,9 +369,8 @@ Proof.
   { destruct r as [id desc [|c cols]]; [discriminate|reflexivity]. }
   assert (forallb wf_gline16 (g_lines (g_of_style (y, r))) = true) as E8.
   { unfold g_of_style. cbn [g_lines]. apply wf_lines16_of_style; assumption. }
-  change (g_hsep (g_of_style (y, r))) with (y_hsep y).
   change (g_id (g_of_style (y, r))) with (sid r). change (g_desc (g_of_style (y, r))) with (sdesc r).
-  rewrite Hh, E4, E8.
+  rewrite (wf_hsep_of_style y r Hh), E4, E8.
   repeat match goal with Hx : ?b = true |- context [?b] => rewrite Hx end. reflexivity.
 Qed.
 
@@ -344,8 +388,7 @@ Proof.
     destruct Hl as [c [<- Hc]]. cbn [g_toks]. apply wf_gtoks_of_style; [exact Hstyle|exact (Hne c Hc)|].
     match goal with Hf : forallb (fun c => forallb wf_count (snd c)) _ = true |- _ =>
       rewrite forallb_forall in Hf; exact (Hf c Hc) end. }
-  change (g_hsep (g_of_style (y, r))) with (y_hsep y).
   change (g_id (g_of_style (y, r))) with (sid r). change (g_desc (g_of_style (y, r))) with (sdesc r).
-  rewrite Hh, E4, E8.
+  rewrite (wf_hsep_of_style y r Hh), E4, E8.
   repeat match goal with Hx : ?b = true |- context [?b] => rewrite Hx end. reflexivity.
 Qed.
